@@ -211,6 +211,17 @@ def nonzero_from_facts(term, facts, timeout_ms=5000):
                 return True
         except z3.Z3Exception:
             continue
+    # small query: only the literal sign facts (products / multiples of known non-zero terms)
+    sol = z3.Solver()
+    sol.set('timeout', 2000)
+    for t in cands:
+        sol.add(t != 0)
+    for f in facts:
+        if z3.is_app(f) and f.decl().kind() in (z3.Z3_OP_GT, z3.Z3_OP_LT, z3.Z3_OP_GE, z3.Z3_OP_LE):
+            sol.add(f)
+    sol.add(term == 0)
+    if sol.check() == z3.unsat:
+        return True
     sol = z3.Solver()
     sol.set('timeout', timeout_ms)
     for f in facts:
@@ -460,7 +471,7 @@ def _find_cofactors(p_s, hyps_s, gens, want_groebner, timeout=30):
         for i, c in zip(keep, q):
             cof[i] = sympy.Poly(c, *gens, domain='QQ')
         return cof
-    share = max(2, timeout // 3)
+    share = max(2, timeout // 2)
     notes = []
     decided_not = False
     try:
